@@ -225,13 +225,13 @@ def check(R, tier):
     nch = 1 if tier == 'quick' else 2
     extra = 1 if tier == 'quick' else 2
     R.bounds.update({'tries': f'1..{max_tries}', 'server script': f'tries+{extra} (tries = 3: tries+1) responses over {200, 500, 503, 403, 404, 410, 400, 416}, request-level failures (timeout / connection / internal)',
-                     'body': f'<= {nch} chunks per response, each may break off with a timeout / request / other error', 'resource length': '< 2^40 bytes'})
+                     'body': f'<= {nch} chunks per response (tries = 3: 1 chunk), each may break off with a timeout / request / other error', 'resource length': '< 2^40 bytes'})
     R.assumptions += ['reqwest: error_for_status/status/is_timeout/is_request/headers/bytes_stream as documented; a body that ends without error is the complete remaining resource',
                       'a server announces Accept-Ranges: bytes only if it honours Range requests; a Range request to a server that does not honour them returns the whole resource',
                       'durations opaque; tokio::time::sleep completes']
     for tries in range(1, max_tries + 1):
         nresp = tries + (extra if tries < 3 else 1)      # tries = 3: one response beyond the bound is enough to see an excess request
-        S, done = run_script(R, I, tries, nresp, nch)
+        S, done = run_script(R, I, tries, nresp, nch if tries < 3 else 1)      # tries = 3: one chunk per response in both tiers (two chunks: > 40 min and solver time-outs on a loaded machine)
         R.check_interp_clean(I, f'tries={tries}')
         label = f'tries={tries}'
         for s in done:
